@@ -208,15 +208,20 @@ def _read_shapes(peek=False):
 
 
 def _read_core(C, self, fmt, advance=True):
-    V = bits(self)
+    V0 = bits(self)
     p = self.attrs['_pos']
-    rem = V.n - p
+    rem = V0.n - p
+    N = V0.n
+    # lsb0: positions count from the least significant end; the window [a, b) of the reversed data, reversed back, is the stored
+    # bits [n - b, n - a) -- whole-value interpretations then read it in stored order (C12)
+    win = (lambda a, b: sub(V0, N - b, N - a)) if C.lsb0 else (lambda a, b: sub(V0, a, b))
+    V = V0
     if sym.is_intlike(fmt):
         if sym.truth(fmt < 0):
             C.throw('ValueError')
         if sym.truth(fmt > rem):
             C.throw('ReadError')
-        r = mk_bits(C, self.cls, sub(V, p, p + fmt), pos=0)
+        r = mk_bits(C, self.cls, win(p, p + fmt), pos=0)
         if advance:
             self.attrs['_pos'] = p + fmt
         return r
@@ -230,7 +235,7 @@ def _read_core(C, self, fmt, advance=True):
         from .golomb import readue_core
         if C.lsb0:
             C.throw('ReadError')
-        c, used = readue_core(C, sub(V, p, V.n), 0)      # the codeword is read from the tail bits[pos:]
+        c, used = readue_core(C, win(p, V.n), 0)      # the codeword is read from the tail bits[pos:]
         newp = p + used
         if name == 'se':
             m = (c + 1) // 2
@@ -252,7 +257,7 @@ def _read_core(C, self, fmt, advance=True):
         C.throw('ValueError')          # a negative amount cannot be read (as for an integer argument)
     if sym.truth(Lb > rem):
         C.throw('ReadError')
-    val = decode(C, name, sub(V, p, p + Lb), self.cls)
+    val = decode(C, name, win(p, p + Lb), self.cls)
     if advance:
         self.attrs['_pos'] = p + Lb
     return val
